@@ -190,6 +190,16 @@ def digest(obj):
     return hashlib.sha1(json.dumps(obj, sort_keys=True, default=repr).encode()).hexdigest()[:16]
 
 
+def rejected(func, *args, **kwargs):
+    """Make a call that the library must reject (malformed arguments) and ignore the outcome.
+    What a rejected call leaves behind - a flag, a half-written cache entry, a changed global -
+    must not change the answer to the valid call that follows."""
+    try:
+        func(*args, **kwargs)
+    except Exception:                       # pylint: disable=broad-except
+        pass
+
+
 def seeded_ints(seed, salt, count, max_bits=31, signed=True):
     """Deterministic seed-derived extension values for a numeric axis (never a sample of a
     larger space: they *extend* the fixed alphabet, and the product is still enumerated)."""
